@@ -356,6 +356,22 @@ impl C06 {
                     _ => return Err("SemifiniteArrow::identity(Finite) is not finite".into()),
                 }
                 ensure(al.compose(&af).is_none(), || "semifinite ; finite should be undefined".into())?;
+                // finite ; finite through the same enum, the Identity variant, and the conversions
+                let idf: SemifiniteArrow<K, String> = FF::identity(f.1).into();
+                match af.compose(&idf) {
+                    Some(SemifiniteArrow::Finite(r)) => ensure(same_ff(&r, &f.0, f.1), || "SemifiniteArrow: f ; id".into())?,
+                    _ => return Err("SemifiniteArrow: finite ; finite is not finite".into()),
+                }
+                let wrong: SemifiniteArrow<K, String> = FF::identity(f.1 + 1).into();
+                ensure(af.compose(&wrong).is_none(), || "SemifiniteArrow: finite ; finite with a type mismatch is defined".into())?;
+                let ident = SemifiniteArrow::<K, String>::identity(SemifiniteObject::Set(core::marker::PhantomData));
+                ensure(matches!(ident, SemifiniteArrow::Identity), || "identity on the set object is not the Identity arrow".into())?;
+                ensure(ident.source() == SemifiniteObject::Set(core::marker::PhantomData) && ident.target() == SemifiniteObject::Set(core::marker::PhantomData), || "source/target of the Identity arrow".into())?;
+                ensure(af.compose(&ident).is_none() && ident.compose(&af).is_none(), || "composition with the Identity arrow on types must be undefined".into())?;
+                let back: Result<SF<String>, ()> = SF::<String>::try_from(al);
+                ensure(back.map(|b| b.0 .0) == Ok(labels.clone()), || "TryFrom<SemifiniteArrow> for SemifiniteFunction".into())?;
+                let back2: Result<SF<String>, ()> = SF::<String>::try_from(af);
+                ensure(back2.is_err(), || "TryFrom of a finite arrow must fail".into())?;
                 Ok(exp.is_some())
             }
             "coequalizer_structured" => {
